@@ -135,6 +135,10 @@ func ReadFromWebVTT(i io.Reader) (o *Subtitles, err error) {
 			break
 		}
 	}
+	if err = scanner.Err(); err != nil {
+		err = fmt.Errorf("astisub: scanning failed: %w", err)
+		return
+	}
 
 	// Scan
 	var item = &Item{}
@@ -329,6 +333,12 @@ func ReadFromWebVTT(i io.Reader) (o *Subtitles, err error) {
 				index, _ = strconv.Atoi(line)
 			}
 		}
+	}
+
+	// Check scanner error (read failure or line too long)
+	if err = scanner.Err(); err != nil {
+		err = fmt.Errorf("astisub: scanning failed: %w", err)
+		return
 	}
 	return
 }
